@@ -358,7 +358,9 @@ pub fn run(ctx: &Ctx) {
     ctx.assume("Interrupted is the only transient kind; std's read_exact/write_all retry it");
     small_block(ctx);
     production_block(ctx);
-    cli_block(ctx);
+    if !crate::lib_only() {
+        cli_block(ctx);
+    }
     ctx.require("small-encrypt: Read fault -> error", 100);
     ctx.require("small-encrypt: Write fault -> error", 100);
     ctx.require("small-decrypt: Read fault -> error", 100);
